@@ -412,14 +412,12 @@ class EquationSolver(object):
             Logger('Had evaluation errors')
             raise ValueError(last_error)
         Logger('Number of iterations: {0}'.format(num_tries), priority=3)
-        # Then: append values to the time series
-        varlist = [x[0] for x in self.Parser.Endogenous] + [x[0] for x in self.Parser.Lagged]
-        for var in varlist:
-            assert (len(self.TimeSeries[var]) == step)
-            self.TimeSeries[var].append(initial[var])
-        # Finally: augment with decorative variables
+        # Then: calculate the decorative variables
         # This is complicated as decorative variables may depend upon other decorative variables
         # Create a holding variable that lists the equations, and keep iterating through the list
+        # (The time series are only extended once every variable has been calculated, so that
+        # a failure here leaves all series with the same length.)
+        decoration_values = []
         vars_to_compute = []
         for var, eqn in self.Parser.Decoration:
             vars_to_compute.append((var, eqn))
@@ -430,9 +428,11 @@ class EquationSolver(object):
                 try:
                     val = eval(eqn, globals(), initial)
                     initial[var] = val
-                    self.TimeSeries[var].append(val)
+                    decoration_values.append((var, val))
                 except NameError:
                     failed.append((var, eqn))
+                except ZeroDivisionError as er:
+                    raise ValueError('Error evaluating variable {0} = {1}'.format(var, str(er)))
             # If we failed on every single decoration variable, something is wrong.
             if len(failed) == len(vars_to_compute):
                 # NOTE: We should not get here; it means that the decoration variables are
@@ -444,6 +444,13 @@ class EquationSolver(object):
                     Logger(out)
                 raise ValueError('Cannot solve decoration equations!\n'+out)
             vars_to_compute = failed
+        # Finally: append values to the time series
+        varlist = [x[0] for x in self.Parser.Endogenous] + [x[0] for x in self.Parser.Lagged]
+        for var in varlist:
+            assert (len(self.TimeSeries[var]) == step)
+            self.TimeSeries[var].append(initial[var])
+        for var, val in decoration_values:
+            self.TimeSeries[var].append(val)
 
     def SolveEquation(self):
         if len(self.VariableList) == 0:
